@@ -1,6 +1,7 @@
 package mcp
 
 import (
+	"io"
 	"context"
 	"net/http"
 	"time"
@@ -42,6 +43,7 @@ type zzC11Env struct {
 	media       string
 	timers      map[*time.Timer]*zzTimer
 	nowPOSTRefs int
+	handler     *StreamableHTTPHandler
 }
 
 type zzTimer struct {
@@ -57,9 +59,11 @@ var zzC11 *zzC11Env
 func zzTransportServe(t *StreamableServerTransport, w http.ResponseWriter, req *http.Request) {
 	zzC11.served = append(zzC11.served, t)
 	// while the transport serves a POST of a stateful session the idle timer must not be armed
-	for _, tm := range zzC11.timers {
-		if req.Method == http.MethodPost {
-			vAssert(!tm.armed, "C11.idle-timer-not-armed-during-POST")
+	if req.Method == http.MethodPost && zzC11.handler != nil {
+		for _, si := range zzC11.handler.sessions {
+			if si.transport == t && si.timer != nil {
+				vAssert(!zzC11.timers[si.timer].armed, "C11.idle-timer-not-armed-during-POST")
+			}
 		}
 	}
 	w.WriteHeader(http.StatusOK)
@@ -133,7 +137,20 @@ func zzC11Table() {
 	if vBool("aOwned") {
 		ownerA = "u1"
 	}
+	env.handler = h
 	sA := zzC11Session(h, "A", ownerA)
+	// session A has an idle timeout and possibly other POSTs in flight; its timer obeys the invariant
+	// (a POST in flight => not armed) when the request arrives
+	var gtA *zzTimer
+	refsA := 0
+	if vBool("aHasIdleTimeout") {
+		sA.timeout = time.Duration(vIntRange("timeout", 1, 1<<40))
+		sA.timer = zzAfterFunc(sA.timeout, func() {})
+		gtA = env.timers[sA.timer]
+		refsA = vIntRange("otherPOSTsInFlight", 0, 2)
+		sA.refs = refsA
+		gtA.armed = refsA == 0
+	}
 	var sB *sessionInfo
 	if vBool("haveB") {
 		sB = zzC11Session(h, "B", "")
@@ -209,6 +226,13 @@ func zzC11Table() {
 		vAssert(len(env.served) == 1 && env.served[0] == target.transport, "C11.addresses-exactly-one-session")
 		vAssert(env.minted == 0 && env.connects == 0, "C11.no-id-minted-for-existing-session")
 		vReach("served")
+	}
+	if _, live := h.sessions["A"]; live && gtA != nil {
+		// whatever the request was (and whoever sent it), it leaves A's idle timer consistent with the POSTs still
+		// in flight: never armed under a running POST, armed when idle
+		vAssert(sA.refs == refsA, "C11.request-leaves-POST-count-balanced")
+		vAssert(gtA.armed == (refsA == 0), "C11.idle-timer-armed-iff-no-POST-in-flight")
+		vReach("timer-checked")
 	}
 	if sB != nil && sid != "B" {
 		_, stillB := h.sessions["B"]
@@ -303,4 +327,69 @@ func zzC11Stateless() {
 
 func zzEphemeralOpts(h *StreamableHTTPHandler, req *http.Request) (*ephemeralConnectInfo, error) {
 	return &ephemeralConnectInfo{opts: &ServerSessionOptions{State: &ServerSessionState{InitializeParams: &InitializeParams{ProtocolVersion: protocolVersion20250618}, InitializedParams: &InitializedParams{}}}}, nil
+}
+
+// ---------------------------------------------------------------- C12: the request-body size gate
+//
+// Whatever the framing of the request (declared length, unknown length as with chunked transfer or HTTP/2, or a
+// declared length of zero), a body handed on to the session's transport is bounded by MaxRequestBodyBytes — the
+// net/http limiter itself (413 on overrun) is the library's; what is decided here is that it is always installed.
+
+type zzLimitedBody struct {
+	inner io.ReadCloser
+	limit int64
+}
+
+func (b *zzLimitedBody) Read(p []byte) (int, error) { return 0, io.EOF }
+func (b *zzLimitedBody) Close() error               { return nil }
+
+type zzRawBody struct{}
+
+func (zzRawBody) Read(p []byte) (int, error) { return 0, io.EOF }
+func (zzRawBody) Close() error               { return nil }
+
+func zzMaxBytesReader(w http.ResponseWriter, r io.ReadCloser, n int64) io.ReadCloser {
+	return &zzLimitedBody{inner: r, limit: n}
+}
+
+var zzSeenBody io.ReadCloser
+
+func zzTransportServeBody(t *StreamableServerTransport, w http.ResponseWriter, req *http.Request) {
+	zzC11.served = append(zzC11.served, t)
+	zzSeenBody = req.Body
+	w.WriteHeader(http.StatusOK)
+}
+
+func zzC12BodyLimit() {
+	env := &zzC11Env{timers: map[*time.Timer]*zzTimer{}, media: "application/json"}
+	zzC11 = env
+	zzSeenBody = nil
+	srv := &Server{}
+	srv.opts.GetSessionID = func() string { return "NEW" }
+	configured := int64(vIntRange("maxRequestBodyBytes", -1, 1<<40)) // negative: limit disabled; 0: default; else the limit
+	stateless := vBool("stateless")
+	h := NewStreamableHTTPHandler(func(*http.Request) *Server { return srv }, &StreamableHTTPOptions{DisableLocalhostProtection: true, MaxRequestBodyBytes: configured, Stateless: stateless})
+	req := &http.Request{Method: http.MethodPost, Header: http.Header{}, Body: zzRawBody{}}
+	req.Header.Set("Accept", "application/json, text/event-stream")
+	req.Header.Set("Content-Type", "application/json")
+	req.ContentLength = int64(vIntRange("contentLength", -1, 1<<50)) // -1: unknown (chunked / HTTP/2 without length)
+	if !stateless && vBool("existingSession") {
+		zzC11Session(h, "A", "")
+		req.Header.Set(sessionIDHeader, "A")
+	}
+	w := &zzRec{hdr: http.Header{}}
+	h.ServeHTTP(w, req)
+	vAssert(len(env.served) == 1, "C12.body-limit.request-served")
+	want := configured
+	if configured == 0 {
+		want = DefaultMaxRequestBodyBytes
+	}
+	lb, limited := zzSeenBody.(*zzLimitedBody)
+	if want > 0 {
+		vAssert(limited && lb.limit == want, "C12.body-bounded-whatever-the-framing")
+		vReach("bounded")
+	} else {
+		vAssert(!limited, "C12.body-limit.disabled-by-negative-option")
+	}
+	vReach("end")
 }
